@@ -1,5 +1,6 @@
 SPECIFICATION Spec
 CONSTANTS
+ EarlyTailError = FALSE
  MaxReinit = 0
  CountCalls = TRUE
  NW = 2  HdrSz = 1  TailSz = 1  TailOk = FALSE  Chunk = 1
